@@ -26,8 +26,10 @@ def base_values(names, mtype=MTYPES[0], offset=0):
     return v
 
 
-def check(layout, values, pad=None, list_ver="Kamstrup_V0001") -> list[str]:
+def check(layout, values, pad=None, list_ver="Kamstrup_V0001", apdu=None) -> list[str]:
     from han import kamstrup
+
+    APDU = apdu or globals()["APDU"]
 
     names = RC.KAM_LAYOUTS[layout]
     pad = {int(k): n for k, n in (pad or {}).items()}
@@ -44,7 +46,13 @@ def check(layout, values, pad=None, list_ver="Kamstrup_V0001") -> list[str]:
 
 def replay(case: dict) -> list[str]:
     v = {k: (tuple(x) if isinstance(x, list) else x) for k, x in case["values"].items()}
-    return check(case["layout"], v, case.get("pad"), case.get("list_ver", "Kamstrup_V0001"))
+    errs = check(case["layout"], v, case.get("pad"), case.get("list_ver", "Kamstrup_V0001"))
+    if not errs and "meter_datetime" in v:  # clock-relation cases: try the APDU variants of the clocks phase
+        from mc.props import C10
+        for seq in C10.equal_instant_sequences():
+            for a in seq:
+                errs = errs or check(case["layout"], v, None, "Kamstrup_V0001", a)
+    return errs
 
 
 def _report(p, layout, values, pad, errs, label, ct):
@@ -113,6 +121,22 @@ def _work(task) -> core.Part:
                             _report(p, layout, v, None, e, f"{field}={val} meter type {mt!r}", mt.startswith("685"))
                             if p.full("kamstrup") or p.full("kamstrup_ct"):
                                 return p
+    elif mode == "clocks":
+        # relations between the APDU date-time and the list's own clock element: equal civil fields with different
+        # deviations, equal instants, naive vs aware - the frame's meter clock is always the APDU date-time
+        from mc.props import C10
+        if "meter_datetime" in names:
+            for seq in C10.equal_instant_sequences():
+                for a, b in ((seq[0], seq[1]), (seq[1], seq[0]), (seq[0], seq[0])):
+                    v = base_values(names)
+                    v["meter_datetime"] = b
+                    e = check(layout, v, None, "Kamstrup_V0001", a)
+                    p.add("evaluations")
+                    p.add("nontrivial")
+                    if e:
+                        _report(p, layout, v, None, e, f"APDU date-time {RC.dt12(*a).hex()} vs list clock {RC.dt12(*b).hex()}", False)
+                        if p.full("kamstrup"):
+                            return p
     elif mode == "values":
         a32 = cosemx.int_alphabet("u32", seed)
         a16 = cosemx.int_alphabet("u16", seed)
@@ -130,6 +154,23 @@ def _work(task) -> core.Part:
                         _report(p, layout, v, None, e, f"{nm}={val} meter type {mt!r}", mt.startswith("685"))
                         if p.full("kamstrup") and p.full("kamstrup_ct"):
                             return p
+    elif mode == "words":
+        for i, t in enumerate(w3 for w in cosemx.word_texts() for w3 in (w, w, w)):
+            v = base_values(names)
+            lv = "Kamstrup_V0001"
+            if i % 3 == 0:
+                v["meter_id"] = t
+            elif i % 3 == 1:
+                v["meter_type"] = t
+            else:
+                lv = t
+            e = check(layout, v, None, lv)
+            p.add("evaluations")
+            p.add("nontrivial")
+            if e:
+                _report(p, layout, v, None, e, f"text {t!r}", str(v["meter_type"]).startswith("685"))
+                if p.full("kamstrup") or p.full("kamstrup_ct"):
+                    return p
     elif mode == "text":
         for t in ("", "A", "Kamstrup_V0001", "x" * 200):
             v = base_values(names)
@@ -166,7 +207,7 @@ def main(run: core.Run) -> int:
                 "9 meter type numbers (CT types 685...); per register the u32/u16 alphabets for a standard and a CT meter; complete 2^16 sweep of one current register (standard and CT); list version / id texts; "
                 "each as bare body and as frame; non-trivial = distinct lists decoded")
     cosemx.bind_fixtures()
-    tasks = [(lay, run.seed, m) for lay in RC.KAM_LAYOUTS for m in ("pad", "values", "text", "padsweep", "pairs")] + [("list2_1ph", run.seed, "lattice"), ("list1_3ph", run.seed, "lattice")]
+    tasks = [(lay, run.seed, m) for lay in RC.KAM_LAYOUTS for m in ("pad", "values", "text", "padsweep", "pairs", "clocks")] + [("list2_1ph", run.seed, "lattice"), ("list1_3ph", run.seed, "lattice"), ("list2_3ph", run.seed, "words"), ("list1_1ph", run.seed, "words")]
     for mt in (MTYPES[0], MTYPES[1]):
         for a in range(0, 65536 if q else 2 * 65536, 4096):
             tasks.append(("list1_3ph", run.seed, ("current_l1", a, a + 4096, mt)))
